@@ -126,7 +126,11 @@ func searchPossibleConflict(instance *datadoghqv1alpha1.ExtendedDaemonsetSetting
 		for _, edsNode := range edsNodes {
 			selector, err2 := metav1.LabelSelectorAsSelector(&edsNode.Spec.NodeSelector)
 			if err2 != nil {
-				return "", err2
+				if edsNode.Name == instance.Name {
+					return "", err2
+				}
+				// the unusable selector of another setting selects no node: it cannot conflict with this one
+				continue
 			}
 			if selector.Matches(labels.Set(node.Labels)) {
 				if edsNode.Name == instance.Name {
